@@ -33,4 +33,14 @@ m = m.replace("//@   modifies Q.closed, a.reqList.lmem, a.reqList.lcnt, list.Ele
 m = m.rstrip("\n").rstrip("/").rstrip("\n") + "\n" + loop
 m = m.replace("//@ func Q.Close\n//@   requires !held(a.lock) && a.reqList != nil\n", "//@ func Q.Close\n//@   requires !held(a.lock) && a.reqList != nil\n")
 m = m.replace("modifies Q.closed, a.reqList.lmem", "modifies region($chanclosed), Q.closed, a.reqList.lmem")
+# the mux workers need to say WHAT a Do* entry point enqueued: the add operations record their argument in a ghost
+m = m.replace("//@ pure errsOK()", "// lastAdded: the request handed to the most recent AddReq/AddPriorReq (ghost, written inside the critical section)\n//@ ghost lastAdded interface{}\n//@ ghost lastQ *Q\n//@ ghost lastPrior bool\n//@ pure errsOK()", 1)
+for fn in ("AddReq", "AddPriorReq"):
+    i = m.index("//@ func Q.%s\n" % fn); j = m.index("//@   modifies", i)
+    pr = "true" if fn == "AddPriorReq" else "false"
+    m = m[:j] + "//@   atrelease lastAdded = req\n//@   atrelease lastQ = a\n//@   atrelease lastPrior = " + pr + "\n//@   ensures #recorded lastAdded == req && lastQ == a && lastPrior == " + pr + "\n" + m[j:]
+    k = m.index("\n", j + 70 + 0)
+    # extend this function's modifies line
+    e = m.index("\n", m.index("//@   modifies", m.index("#recorded", i)))
+    m = m[:e] + ", lastAdded, lastQ, lastPrior" + m[e:]
 open('/repo/syncx/pipe/mux/zz_contracts_verif.go', 'w').write(m)
